@@ -117,7 +117,7 @@ def gen_spec(seed, index, tier):
     ops = rng.sub("ops")
     spec = {"property": PROP, "index": index, "seed": seed, "base": base,
             "cfg": {"observe": ops.choice(["full", "full", "full", "sparse"]),
-                    "sparse_pick": ops.u32()}}
+                    "sparse_pick": ops.u32(), "bystander": ops.chance(0.25)}}
     if base is None:
         spec["steps"] = []
         return spec
@@ -181,7 +181,12 @@ def _solver_skip(world, extra=()):
     return set()
 
 
-def take_snapshot(world, obj, probes, only=None):
+def take_snapshot(world, obj, probes, only=None, other=None):
+    if other is not None:
+        # a second, different live shape of the same class is read first: two objects must
+        # not see each other's state (class-level caches, shared default containers)
+        with world.step(7, 8, use_fs=False):
+            observe.snapshot(other, None, only=only)
     with world.step(7, 7, use_fs=False):
         snap = observe.snapshot(obj, probes, only=only)
     return snap, _solver_skip(world)
@@ -236,7 +241,15 @@ def _execute(spec, world):
         only = {"vertices", "faces", "normal", "radius"} | set(
             pick.sample(names, min(4, len(names))))
     probes = observe.build_probes(obj.vertices)
-    prev_snap, prev_skip = take_snapshot(world, obj, probes, only)
+    other = None
+    if spec.get("cfg", {}).get("bystander"):
+        with world.step(0, 1, use_fs=False):
+            try:
+                other = gen.build(gen.sibling(spec["base"]))
+                C["runs_with_bystander"] += 1
+            except Exception:  # noqa: BLE001
+                other = None
+    prev_snap, prev_skip = take_snapshot(world, obj, probes, only, other)
     prev_op = "^"
     nsteps = len(spec["steps"])
     for si, st in enumerate(spec["steps"]):
@@ -320,7 +333,7 @@ def _execute(spec, world):
         probes = observe.build_probes(obj.vertices)
         last = si == nsteps - 1
         use_only = None if last else only
-        snap_obj, skip_a = take_snapshot(world, obj, probes, use_only)
+        snap_obj, skip_a = take_snapshot(world, obj, probes, use_only, other)
         snap_fr, skip_b = take_snapshot(world, fr, probes, use_only)
         d = observe.diff_equiv(snap_obj, snap_fr, nbase=probes["n_base"], faces_as_cycles=cycles,
                                skip=skip_a | skip_b)
